@@ -36,7 +36,7 @@ def shard(ctx, budget_s):
         from ..flow import Flow, app_payload
         for _k in range(3):
             e = gen.endp(rng, cfg, rng.random() < 0.5)
-            fl = Flow(ctx, e, gen.rnd_port(rng), gen.rnd_port(rng))
+            fl = Flow.fresh(ctx, e)
             if fl.syn() is None:
                 continue
             r1 = app_payload(fl.data(http.gen(rng)))
